@@ -1,4 +1,4 @@
-import Yaql.Model.DateTime
+import Yaql.Props.C20
 /-!
 C20, calendar part: the transcription of CPython's `_ymd2ord` / `_ord2ymd` in `Yaql.DateTime` is a
 bijection between the valid dates of years 1..9999 and the ordinals 1..3652059, so the constructor
@@ -6,7 +6,7 @@ bijection between the valid dates of years 1..9999 and the ordinals 1..3652059, 
 existing value has valid fields that spell it, and `.date` / `.time` split a value.
 -/
 namespace Yaql.Props.C20Cal
-open Yaql.DateTime
+open Yaql.DateTime Yaql.Props.C20
 
 /-- `_days_in_month` by the leap flag -/
 def dim (leap : Bool) (m : Int) : Int := daysInMonthCommon m + (if m = 2 ∧ leap = true then 1 else 0)
@@ -158,5 +158,159 @@ theorem ymd2ord_range (y m d : Int) (hy : 1 ≤ y ∧ y ≤ 9999) (hm : 1 ≤ m 
   unfold ymd2ord daysBeforeYear
   generalize daysBeforeMonth (isLeap y) m = q at *
   constructor <;> omega
+
+/-- every day-of-year offset belongs to a month: `monthDay` returns a valid month and day that spell it -/
+theorem monthDay_inv (year : Int) (leap : Bool) (k : Int) (hk : 0 ≤ k)
+    (hk2 : k ≤ 364 ∨ (k = 365 ∧ leap = true)) :
+    ∃ m d, monthDay year leap k = (year, m, d) ∧ (1 ≤ m ∧ m ≤ 12) ∧ (1 ≤ d ∧ d ≤ dim leap m) ∧
+      daysBeforeMonth leap m + d - 1 = k := by
+  have key : ∀ m : Int, (1 ≤ m ∧ m ≤ 12) → (1 ≤ k - daysBeforeMonth leap m + 1 ∧ k - daysBeforeMonth leap m + 1 ≤ dim leap m) →
+      ∃ m d, monthDay year leap k = (year, m, d) ∧ (1 ≤ m ∧ m ≤ 12) ∧ (1 ≤ d ∧ d ≤ dim leap m) ∧
+        daysBeforeMonth leap m + d - 1 = k := by
+    intro m hm hd
+    refine ⟨m, k - daysBeforeMonth leap m + 1, ?_, hm, hd, by omega⟩
+    have := monthDay_spec year leap m (k - daysBeforeMonth leap m + 1) hm hd
+    have e : daysBeforeMonth leap m + (k - daysBeforeMonth leap m + 1) - 1 = k := by omega
+    rw [e] at this
+    exact this
+  cases leap
+  · have hr : k < 31 ∨ (31 ≤ k ∧ k < 59) ∨ (59 ≤ k ∧ k < 90) ∨ (90 ≤ k ∧ k < 120) ∨ (120 ≤ k ∧ k < 151) ∨
+        (151 ≤ k ∧ k < 181) ∨ (181 ≤ k ∧ k < 212) ∨ (212 ≤ k ∧ k < 243) ∨ (243 ≤ k ∧ k < 273) ∨
+        (273 ≤ k ∧ k < 304) ∨ (304 ≤ k ∧ k < 334) ∨ (334 ≤ k ∧ k < 365) := by
+      simp at hk2; omega
+    rcases hr with h | h | h | h | h | h | h | h | h | h | h | h
+    · exact key 1 (by omega) (by simp [daysBeforeMonth, daysBeforeMonthCommon, dim, daysInMonthCommon]; omega)
+    · exact key 2 (by omega) (by simp [daysBeforeMonth, daysBeforeMonthCommon, dim, daysInMonthCommon]; omega)
+    · exact key 3 (by omega) (by simp [daysBeforeMonth, daysBeforeMonthCommon, dim, daysInMonthCommon]; omega)
+    · exact key 4 (by omega) (by simp [daysBeforeMonth, daysBeforeMonthCommon, dim, daysInMonthCommon]; omega)
+    · exact key 5 (by omega) (by simp [daysBeforeMonth, daysBeforeMonthCommon, dim, daysInMonthCommon]; omega)
+    · exact key 6 (by omega) (by simp [daysBeforeMonth, daysBeforeMonthCommon, dim, daysInMonthCommon]; omega)
+    · exact key 7 (by omega) (by simp [daysBeforeMonth, daysBeforeMonthCommon, dim, daysInMonthCommon]; omega)
+    · exact key 8 (by omega) (by simp [daysBeforeMonth, daysBeforeMonthCommon, dim, daysInMonthCommon]; omega)
+    · exact key 9 (by omega) (by simp [daysBeforeMonth, daysBeforeMonthCommon, dim, daysInMonthCommon]; omega)
+    · exact key 10 (by omega) (by simp [daysBeforeMonth, daysBeforeMonthCommon, dim, daysInMonthCommon]; omega)
+    · exact key 11 (by omega) (by simp [daysBeforeMonth, daysBeforeMonthCommon, dim, daysInMonthCommon]; omega)
+    · exact key 12 (by omega) (by simp [daysBeforeMonth, daysBeforeMonthCommon, dim, daysInMonthCommon]; omega)
+  · have hr : k < 31 ∨ (31 ≤ k ∧ k < 60) ∨ (60 ≤ k ∧ k < 91) ∨ (91 ≤ k ∧ k < 121) ∨ (121 ≤ k ∧ k < 152) ∨
+        (152 ≤ k ∧ k < 182) ∨ (182 ≤ k ∧ k < 213) ∨ (213 ≤ k ∧ k < 244) ∨ (244 ≤ k ∧ k < 274) ∨
+        (274 ≤ k ∧ k < 305) ∨ (305 ≤ k ∧ k < 335) ∨ (335 ≤ k ∧ k < 366) := by
+      omega
+    rcases hr with h | h | h | h | h | h | h | h | h | h | h | h
+    · exact key 1 (by omega) (by simp [daysBeforeMonth, daysBeforeMonthCommon, dim, daysInMonthCommon]; omega)
+    · exact key 2 (by omega) (by simp [daysBeforeMonth, daysBeforeMonthCommon, dim, daysInMonthCommon]; omega)
+    · exact key 3 (by omega) (by simp [daysBeforeMonth, daysBeforeMonthCommon, dim, daysInMonthCommon]; omega)
+    · exact key 4 (by omega) (by simp [daysBeforeMonth, daysBeforeMonthCommon, dim, daysInMonthCommon]; omega)
+    · exact key 5 (by omega) (by simp [daysBeforeMonth, daysBeforeMonthCommon, dim, daysInMonthCommon]; omega)
+    · exact key 6 (by omega) (by simp [daysBeforeMonth, daysBeforeMonthCommon, dim, daysInMonthCommon]; omega)
+    · exact key 7 (by omega) (by simp [daysBeforeMonth, daysBeforeMonthCommon, dim, daysInMonthCommon]; omega)
+    · exact key 8 (by omega) (by simp [daysBeforeMonth, daysBeforeMonthCommon, dim, daysInMonthCommon]; omega)
+    · exact key 9 (by omega) (by simp [daysBeforeMonth, daysBeforeMonthCommon, dim, daysInMonthCommon]; omega)
+    · exact key 10 (by omega) (by simp [daysBeforeMonth, daysBeforeMonthCommon, dim, daysInMonthCommon]; omega)
+    · exact key 11 (by omega) (by simp [daysBeforeMonth, daysBeforeMonthCommon, dim, daysInMonthCommon]; omega)
+    · exact key 12 (by omega) (by simp [daysBeforeMonth, daysBeforeMonthCommon, dim, daysInMonthCommon]; omega)
+
+/-- every day number has cycle coordinates -/
+theorem cycles_exist (n : Int) :
+    ∃ a b c e k : Int, (0 ≤ b ∧ b ≤ 3) ∧ (0 ≤ c ∧ c ≤ 24) ∧ (0 ≤ e ∧ e ≤ 3) ∧ 0 ≤ k ∧
+      (k ≤ 364 ∨ (k = 365 ∧ e = 3 ∧ (c ≠ 24 ∨ b = 3))) ∧
+      n = 146097 * a + 36524 * b + 1461 * c + 365 * e + k := by
+  by_cases hb : n % 146097 / 36524 = 4
+  · exact ⟨n / 146097, 3, 24, 3, 365, by omega, by omega, by omega, by omega, by omega, by omega⟩
+  · by_cases he : n % 146097 % 36524 % 1461 / 365 = 4
+    · exact ⟨n / 146097, n % 146097 / 36524, n % 146097 % 36524 / 1461, 3, 365,
+        by omega, by omega, by omega, by omega, by omega, by omega⟩
+    · exact ⟨n / 146097, n % 146097 / 36524, n % 146097 % 36524 / 1461, n % 146097 % 36524 % 1461 / 365,
+        n % 146097 % 36524 % 1461 % 365, by omega, by omega, by omega, by omega, by omega, by omega⟩
+
+/-- `_ord2ymd` of an ordinal of years 1..9999 is a valid date of that range with that ordinal -/
+theorem ymd2ord_ord2ymd (ord : Int) (h : 1 ≤ ord ∧ ord ≤ 3652059) :
+    ∃ y m d, ord2ymd ord = (y, m, d) ∧ (1 ≤ y ∧ y ≤ 9999) ∧ (1 ≤ m ∧ m ≤ 12) ∧
+      (1 ≤ d ∧ d ≤ daysInMonth y m) ∧ ymd2ord y m d = ord := by
+  obtain ⟨a, b, c, e, k, hb, hc, he, hk, hk2, hn⟩ := cycles_exist (ord - 1)
+  have hord : ord = 146097 * a + 36524 * b + 1461 * c + 365 * e + k + 1 := by omega
+  have hy : 1 ≤ 400 * a + 100 * b + 4 * c + e + 1 ∧ 400 * a + 100 * b + 4 * c + e + 1 ≤ 9999 := by omega
+  generalize hyy : 400 * a + 100 * b + 4 * c + e + 1 = y at hy
+  have hleap : isLeap y = (decide (e = 3) && (decide (c ≠ 24) || decide (b = 3))) := by
+    rw [isLeap_cycles]
+    have h1 : (y - 1) % 4 = e := by omega
+    have h2 : (y - 1) % 100 / 4 = c := by omega
+    have h3 : (y - 1) % 400 / 100 = b := by omega
+    rw [h1, h2, h3]
+  have hdby : daysBeforeYear y = 146097 * a + 36524 * b + 1461 * c + 365 * e := by
+    unfold daysBeforeYear
+    have := dby_decomp (y - 1)
+    omega
+  rw [hord, ord2ymd_cycles a b c e k hb hc he hk hk2, hyy, ← hleap]
+  by_cases h365 : k = 365
+  · have hl : isLeap y = true := by
+      rw [hleap]; simp; omega
+    refine ⟨y, 12, 31, by simp [h365], hy, by omega, ?_, ?_⟩
+    · simp [daysInMonth, daysInMonthCommon]
+    · simp only [ymd2ord, hdby, hl, daysBeforeMonth, daysBeforeMonthCommon]
+      simp; omega
+  · have hk3 : k ≤ 364 ∨ (k = 365 ∧ isLeap y = true) := by omega
+    obtain ⟨m, d, hmd, hm, hd, hkk⟩ := monthDay_inv y (isLeap y) k hk hk3
+    refine ⟨y, m, d, by simp [h365, hmd], hy, hm, ?_, ?_⟩
+    · rw [daysInMonth_dim]; exact hd
+    · simp only [ymd2ord, hdby]; omega
+
+/-! ## fields <-> wall clock -/
+
+theorem valid_iff (f : Fields) : f.valid = true ↔
+    (1 ≤ f.year ∧ f.year ≤ 9999) ∧ (1 ≤ f.month ∧ f.month ≤ 12) ∧ (1 ≤ f.day ∧ f.day ≤ daysInMonth f.year f.month) ∧
+    (0 ≤ f.hour ∧ f.hour < 24) ∧ (0 ≤ f.minute ∧ f.minute < 60) ∧ (0 ≤ f.second ∧ f.second < 60) ∧
+    (0 ≤ f.micro ∧ f.micro < 1000000) := by
+  simp only [Fields.valid, Bool.and_eq_true, decide_eq_true_eq]
+  constructor
+  · rintro ⟨⟨⟨⟨⟨⟨⟨⟨⟨⟨⟨⟨⟨h1, h2⟩, h3⟩, h4⟩, h5⟩, h6⟩, h7⟩, h8⟩, h9⟩, h10⟩, h11⟩, h12⟩, h13⟩, h14⟩
+    exact ⟨⟨h1, h2⟩, ⟨h3, h4⟩, ⟨h5, h6⟩, ⟨h7, h8⟩, ⟨h9, h10⟩, ⟨h11, h12⟩, ⟨h13, h14⟩⟩
+  · rintro ⟨⟨h1, h2⟩, ⟨h3, h4⟩, ⟨h5, h6⟩, ⟨h7, h8⟩, ⟨h9, h10⟩, ⟨h11, h12⟩, ⟨h13, h14⟩⟩
+    exact ⟨⟨⟨⟨⟨⟨⟨⟨⟨⟨⟨⟨⟨h1, h2⟩, h3⟩, h4⟩, h5⟩, h6⟩, h7⟩, h8⟩, h9⟩, h10⟩, h11⟩, h12⟩, h13⟩, h14⟩
+
+/-- valid fields spell a wall clock inside year 1..9999 whose fields they are -/
+theorem fields_roundtrip (f : Fields) (hv : f.valid = true) :
+    fieldsOf (localOf f) = f ∧ inRange (localOf f) = true := by
+  obtain ⟨hy, hm, hd, hh, hmi, hs, hus⟩ := (valid_iff f).1 hv
+  have hord := ymd2ord_range f.year f.month f.day hy hm hd
+  have hrt := ord2ymd_ymd2ord f.year f.month f.day hm hd
+  generalize hO : ymd2ord f.year f.month f.day = O at hord hrt
+  have hl : localOf f = (O - 1) * 86400000000 + (f.hour * 3600000000 + f.minute * 60000000 + f.second * 1000000 + f.micro) := by
+    simp only [localOf, hO, usPerDay, usPerHour, usPerMin, usPerSec]; omega
+  generalize hT : f.hour * 3600000000 + f.minute * 60000000 + f.second * 1000000 + f.micro = T at hl
+  have hT0 : 0 ≤ T ∧ T < 86400000000 := by omega
+  have hdiv : localOf f / 86400000000 + 1 = O := by omega
+  have hmod : localOf f % 86400000000 = T := by omega
+  constructor
+  · unfold fieldsOf
+    simp only [usPerDay, usPerHour, usPerMin, usPerSec, hdiv, hmod, hrt]
+    cases f with | mk y m d h mi s us =>
+    simp only at hh hmi hs hus hT ⊢
+    subst hT
+    congr 1 <;> omega
+  · have : (0 ≤ localOf f ∧ localOf f < 315537897600000000) := by omega
+    have h : inRange (localOf f) = true ↔ 0 ≤ localOf f ∧ localOf f < maxLocal := by simp [inRange]
+    exact h.2 this
+
+/-- the fields of an existing wall clock are valid and spell it -/
+theorem fields_of_wall (l : Int) (hl : inRange l = true) :
+    (fieldsOf l).valid = true ∧ localOf (fieldsOf l) = l ∧ (fieldsOf l).cInts = true := by
+  rw [inRange_lit] at hl
+  obtain ⟨y, m, d, ho, hy, hm, hd, hord⟩ := ymd2ord_ord2ymd (l / 86400000000 + 1) (by omega)
+  have hf : fieldsOf l = ⟨y, m, d, l % 86400000000 / 3600000000, l % 86400000000 % 3600000000 / 60000000,
+      l % 86400000000 % 60000000 / 1000000, l % 86400000000 % 1000000⟩ := by
+    simp only [fieldsOf, usPerDay, usPerHour, usPerMin, usPerSec, ho]
+  rw [hf]
+  refine ⟨?_, ?_, ?_⟩
+  · rw [valid_iff]
+    exact ⟨hy, hm, hd, by dsimp only; omega, by dsimp only; omega, by dsimp only; omega, by dsimp only; omega⟩
+  · simp only [localOf, hord, usPerDay, usPerHour, usPerMin, usPerSec]
+    omega
+  · have hd31 : d ≤ 31 := by
+      have : daysInMonth y m ≤ 31 := by
+        unfold daysInMonth daysInMonthCommon
+        split <;> (try split) <;> (try split) <;> omega
+      omega
+    simp only [Fields.cInts, cInt, Bool.and_eq_true, decide_eq_true_eq]
+    omega
 
 end Yaql.Props.C20Cal
